@@ -318,6 +318,11 @@ def q3_query_matching(ck):
     tb = TermBuilder(prog, b)
     maps = []
     for bb, t in live_calls(b):
+        if callee_name(t).endswith("Option::<T>::map_or"):
+            a = [tb.operand(x) for x in t["args"]]
+            # form 3: field.map_or(true, |x| x == attr)
+            if len(a) == 3 and a[0][0] == "field" and a[0][1] == ("param", 1) and const_value(a[1]) is True and a[2][0] == "agg" and str(a[2][1]).startswith("closure:"):
+                maps.append((a[0][2], a[2][1][len("closure:"):], bb, t, False))
         if callee_name(t).endswith("Option::<T>::map") or callee_name(t).endswith("Option::<T>::is_some_and"):
             a = [tb.operand(x) for x in t["args"]]
             if a[0][0] == "field" and a[0][1] == ("param", 1) and a[1][0] == "agg" and a[1][1].startswith("closure:"):
